@@ -313,6 +313,25 @@ def _run_case(case, exec_seed=None, exec_tape=None):
                     _check_coords(ds, w, truth["inputs"], V, probes, "same-process")
                 except Exception as e:  # noqa: BLE001
                     truth["xr"][inter] = ("raised", type(e).__name__)
+                # a second reading that does not go through the folder: the dataset built from the results in hand.  If
+                # that one exists, the loader has no excuse (a refusal "in both" would otherwise hide a loader that
+                # feeds itself the wrong inputs in every process alike), and the two must carry the same values.
+                try:
+                    from pipefunc.map.xarray import xarray_dataset_from_results
+
+                    ds2 = xarray_dataset_from_results(inputs, res, p, load_intermediate=inter)
+                    v2 = _ds_values(ds2, w)
+                except Exception:  # noqa: BLE001
+                    continue
+                probes["xarray_from_results_baseline"] = probes.get("xarray_from_results_baseline", 0) + 1
+                if truth["xr"][inter][0] == "raised":
+                    V("xarray", f"raised:{truth['xr'][inter][1]}:although-the-dataset-from-results-exists", {"intermediate": inter})
+                    return
+                if truth["xr"][inter][1] != v2:
+                    V("xarray", "folder-dataset-differs-from-results-dataset", {"folder": repr(truth["xr"][inter][1])[:300],
+                                                                                "results": repr(v2)[:300]})
+                    return
+                _check_coords(ds2, w, truth["inputs"], V, probes, "from-results")
 
         def do_op(op):
             if op["op"] == "chdir":
